@@ -28,7 +28,8 @@ CONSTANTS Lens,        \* array lengths for element / whole / via-field cases
           MaxSteps,    \* length bound of block behaviours
           Mode,        \* "cases" | "blocks" | "gen" | "trace"
           RestoreOnException,  \* TRUE: intended behaviour; FALSE: model of a context manager without try/finally
-          HandleCaptures       \* FALSE: intended; TRUE: model of array objects that remember the switch they were made under
+          HandleCaptures,      \* FALSE: intended; TRUE: model of array objects that remember the switch they were made under
+          SwitchShared         \* FALSE: intended (the switch belongs to the execution context); TRUE: model of one process-wide switch
 
 (***************************************************************************)
 (* Part 1b: the cases.  c = [k, n, sh, i, a, b, s, v]                      *)
@@ -91,8 +92,9 @@ Judge(c, o) ==
 (*   unvalidated write of a value outside the domain).                     *)
 (***************************************************************************)
 VARIABLES cs, stack, enabled, msg, last, hist,
-          handles     \* array objects (m.arr) the caller has kept: the set of origins, "in" (made inside a disable block) / "out"
-vars == <<cs, stack, enabled, msg, last, hist, handles>>
+          handles,    \* array objects (m.arr) the caller has kept: the set of origins, "in" (made inside a disable block) / "out"
+          other       \* number of disable blocks ANOTHER thread of the process is inside (e.g. MessageManager.run() sits in one)
+vars == <<cs, stack, enabled, msg, last, hist, handles, other>>
 
 Frame(m, sv) == [mode |-> m, saved |-> sv]
 HasDis(st) == \E j \in DOMAIN st : st[j].mode = "dis"
@@ -113,14 +115,14 @@ Enter(m) ==
   /\ stack' = Append(stack, Frame(m, enabled))
   /\ enabled' = IF m = "dis" THEN FALSE ELSE enabled
   /\ hist' = Log([a |-> "Enter", m |-> m, k |-> 0])
-  /\ UNCHANGED <<cs, msg, last, handles>>
+  /\ UNCHANGED <<cs, msg, last, handles, other>>
 
 ExitNormal ==
   /\ Len(stack) > 0 /\ Len(hist) < MaxSteps
   /\ enabled' = Unwind(stack, enabled, 1)
   /\ stack' = Front(stack, 1)
   /\ hist' = Log([a |-> "ExitNormal", m |-> "-", k |-> 1])
-  /\ UNCHANGED <<cs, msg, last, handles>>
+  /\ UNCHANGED <<cs, msg, last, handles, other>>
 
 (* an exception raised in the innermost block propagates through k blocks and is caught there *)
 ExitByException(k) ==
@@ -128,34 +130,49 @@ ExitByException(k) ==
   /\ enabled' = IF RestoreOnException THEN Unwind(stack, enabled, k) ELSE enabled
   /\ stack' = Front(stack, k)
   /\ hist' = Log([a |-> "ExitByException", m |-> "-", k |-> k])
-  /\ UNCHANGED <<cs, msg, last, handles>>
+  /\ UNCHANGED <<cs, msg, last, handles, other>>
 
 (* assignment of a value inside ("good") or outside ("bad") the domain of the field *)
+(* what this thread's assignments see: its own switch - unless the switch is one per process *)
+Eff == IF SwitchShared THEN enabled /\ other = 0 ELSE enabled
+
 Assign(cls) ==
   /\ Mode = "blocks"
-  /\ IF enabled
+  /\ IF Eff
      THEN /\ msg' = IF cls = "good" THEN "new" ELSE msg            \* refused: every byte unchanged
           /\ last' = [cls |-> cls, refused |-> cls = "bad", pre |-> msg]
      ELSE /\ msg' \in (IF cls = "good" THEN {"new"} ELSE {msg, "junk"})   \* validation off: whatever the raw write does
           /\ last' = [cls |-> cls, refused |-> FALSE, pre |-> msg]
-  /\ UNCHANGED <<cs, stack, enabled, hist, handles>>
+  /\ UNCHANGED <<cs, stack, enabled, hist, handles, other>>
 
 (* the caller reads an array field and keeps the object *)
 TakeHandle ==
   /\ Mode = "blocks"
   /\ handles' = handles \cup {IF enabled THEN "out" ELSE "in"}
-  /\ UNCHANGED <<cs, stack, enabled, msg, last, hist>>
+  /\ UNCHANGED <<cs, stack, enabled, msg, last, hist, other>>
 
 (* an element / slice assignment through a kept array object: what counts is where execution IS, not where the object was made *)
 AssignVia(o, cls) ==
   /\ Mode = "blocks" /\ o \in handles
-  /\ LET eff == IF HandleCaptures THEN o = "out" ELSE enabled IN
+  /\ LET eff == IF HandleCaptures THEN o = "out" ELSE Eff IN
      IF eff
      THEN /\ msg' = IF cls = "good" THEN "new" ELSE msg
           /\ last' = [cls |-> cls, refused |-> cls = "bad", pre |-> msg]
      ELSE /\ msg' \in (IF cls = "good" THEN {"new"} ELSE {msg, "junk"})
           /\ last' = [cls |-> cls, refused |-> FALSE, pre |-> msg]
-  /\ UNCHANGED <<cs, stack, enabled, hist, handles>>
+  /\ UNCHANGED <<cs, stack, enabled, hist, handles, other>>
+
+(* another thread enters / leaves a disable block of its own: nothing changes for this one *)
+OtherEnter ==
+  /\ other < 2 /\ Len(hist) < MaxSteps
+  /\ other' = other + 1
+  /\ hist' = Log([a |-> "OtherEnter", m |-> "dis", k |-> 0])
+  /\ UNCHANGED <<cs, stack, enabled, msg, last, handles>>
+OtherExit ==
+  /\ other > 0 /\ Len(hist) < MaxSteps
+  /\ other' = other - 1
+  /\ hist' = Log([a |-> "OtherExit", m |-> "-", k |-> 1])
+  /\ UNCHANGED <<cs, stack, enabled, msg, last, handles>>
 
 BNext ==
   \/ \E m \in {"dis", "ign"} : Enter(m)
@@ -163,11 +180,12 @@ BNext ==
   \/ \E k \in 1..MaxDepth : ExitByException(k)
   \/ \E cls \in {"good", "bad"} : Assign(cls)
   \/ TakeHandle
+  \/ OtherEnter \/ OtherExit
   \/ \E o \in {"in", "out"} : \E cls \in {"good", "bad"} : AssignVia(o, cls)
 
 NoCase == Case("-", 0, "-", 0, 0, 0, 0, SV("-"))
-BInit == cs = NoCase /\ stack = <<>> /\ enabled = TRUE /\ msg = "m0" /\ last = NoLast /\ hist = <<>> /\ handles = {}
-CInit == IsCase(cs) /\ stack = <<>> /\ enabled = TRUE /\ msg = "m0" /\ last = NoLast /\ hist = <<>> /\ handles = {}
+BInit == cs = NoCase /\ stack = <<>> /\ enabled = TRUE /\ msg = "m0" /\ last = NoLast /\ hist = <<>> /\ handles = {} /\ other = 0
+CInit == IsCase(cs) /\ stack = <<>> /\ enabled = TRUE /\ msg = "m0" /\ last = NoLast /\ hist = <<>> /\ handles = {} /\ other = 0
 
 Init == IF Mode = "cases" THEN CInit ELSE BInit
 Next == IF Mode = "cases" THEN FALSE /\ UNCHANGED vars ELSE BNext
